@@ -931,11 +931,34 @@ func (db *DB) batchWrite(op Op) Result {
 	if n == 0 {
 		return Result{Weak: true, WeakWhy: "empty batch"}
 	}
-	if db.Failure == "internal_server" {
+	// validate everything first: a rejected batch applies nothing
+	invalid := func() *Result {
 		for _, tb := range op.Batch {
-			if _, ok := db.Tables[tb.Table]; !ok {
-				return Result{Weak: true, WeakWhy: "batch on a missing table under emulated failure"}
+			t, ok := db.Tables[tb.Table]
+			if !ok {
+				r := errRes(ErrNotFound, "no such table "+tb.Table)
+				return &r
 			}
+			for _, r := range tb.Reqs {
+				if r.Put != nil {
+					if _, ok := t.KeyOf(r.Put); !ok {
+						r := errRes(ErrValidation, "malformed key in put request")
+						return &r
+					}
+					if t.indexKeyTypeError(r.Put) {
+						return &Result{Spec: true, WeakWhy: "index key attribute of the wrong type"}
+					}
+				} else if _, ok := t.KeyOf(r.Delete); !ok {
+					r := errRes(ErrValidation, "malformed key in delete request")
+					return &r
+				}
+			}
+		}
+		return nil
+	}()
+	if db.Failure == "internal_server" {
+		if invalid != nil {
+			return Result{Weak: true, WeakWhy: "malformed batch under emulated failure"}
 		}
 		// every request is reported as unprocessed, nothing is applied
 		res := Result{}
@@ -944,24 +967,8 @@ func (db *DB) batchWrite(op Op) Result {
 		}
 		return res
 	}
-	// validate everything first: a rejected batch applies nothing
-	for _, tb := range op.Batch {
-		t, ok := db.Tables[tb.Table]
-		if !ok {
-			return errRes(ErrNotFound, "no such table "+tb.Table)
-		}
-		for _, r := range tb.Reqs {
-			if r.Put != nil {
-				if _, ok := t.KeyOf(r.Put); !ok {
-					return errRes(ErrValidation, "malformed key in put request")
-				}
-				if t.indexKeyTypeError(r.Put) {
-					return Result{Spec: true, WeakWhy: "index key attribute of the wrong type"}
-				}
-			} else if _, ok := t.KeyOf(r.Delete); !ok {
-				return errRes(ErrValidation, "malformed key in delete request")
-			}
-		}
+	if invalid != nil {
+		return *invalid
 	}
 	for _, tb := range op.Batch {
 		t := db.Tables[tb.Table]
